@@ -91,4 +91,5 @@ Definition entries : list (Z * (data -> data)) :=
     (1302, fun d => elist e_out (snd (run_prefix init (dmap d_op d))));
     (1303, fun d => ebool (ids_fresh_b (dmap d_out d)));
     (1304, fun d => ebool (ok_ryw (d_hist d)));
+    (1306, fun d => ebool (ok_exist (d_hist d)));
     (1305, fun d => ebool (ok_C13 (dmap d_jid (dnth 0 d)) (dmap d_hist (dnth 1 d)) (dmap d_jid (dnth 2 d)))) ].
